@@ -355,7 +355,16 @@ private:
     if (record_timestamp_ns >= _next_rotation_time)
     {
       _rotate_files(record_timestamp_ns);
-      _next_rotation_time = _calculate_rotation_tp(record_timestamp_ns, _config);
+
+      // Advance from the scheduled rotation point and not from the timestamp of the record that
+      // triggered the rotation, otherwise every late record shifts all following rotation points
+      // away from the configured ones (e.g. daily at 00:00 drifts to the time of the first record
+      // of the day). Periods without any record are skipped.
+      do
+      {
+        _next_rotation_time = _calculate_rotation_tp(_next_rotation_time, _config);
+      } while (record_timestamp_ns >= _next_rotation_time);
+
       return true;
     }
 
